@@ -50,7 +50,7 @@ func main() {
 		n, depth, per = 40000, 6, 400
 	}
 	m := NewMeta("C03", tier, seed)
-	m.Rule = "random nesting of FOR / FOR-WHILE / LET / COLLECT (six forms) / sub-queries; every variable reference is drawn from the visible set or (1 in 6) from all names declared anywhere or nowhere; declarations reuse existing names (1 in 7: legal shadowing or illegal redeclaration); ignore variable _ as loop variable / LET target; LIMIT operands that are variables; a case is non-trivial when it declares a variable; distinct = distinct query text"
+	m.Rule = "random nesting of FOR / FOR-WHILE / LET / COLLECT (six forms) / sub-queries; every variable reference is drawn from the visible set or (1 in 6) from all names declared anywhere or nowhere; declarations reuse existing names (1 in 7: legal shadowing or illegal redeclaration); ignore variable _ as loop variable / LET target; LIMIT operands that are variables; a case is non-trivial when it declares a variable; distinct = distinct query text; plus WAITFOR EVENT queries (compiled only) whose operands mention declared variables, undeclared ones and the pseudo variable CURRENT"
 	c := compiler.New()
 	fqlrun.Register(c)
 	psets := paramSets()
@@ -124,7 +124,12 @@ func main() {
 		}
 	}
 	m.DistinctNontrivial = len(distinct)
-	m.Files = files
+	nWait := 400
+	if tier == "thorough" {
+		nWait = 4000
+	}
+	m.Index["waitfor"] = waitCases(c, out, m, rng, nWait)
+	m.Files = append(files, "casesw.v")
 	m.Index["cases"] = idx
 	m.Write(out)
 }
